@@ -3,13 +3,21 @@ ENGINES = [
      "kind_free_text": "crash-point enumeration over the syscall log (strace) of the real writer: all byte prefixes of the write sequence, recovery and restart executed on the real library"},
     {"name": "gridmc", "path": "mc/checks", "serves_properties": ["C18"],
      "kind_free_text": "exhaustive enumeration of finite option lattices / member lists crossed with small branch-covering data alphabets, each point compared with an oracle independent of REBOUND"},
-    {"name": "histmc", "path": "mc/histmc.py", "serves_properties": ["C05", "C06", "C14"],
+    {"name": "histmc", "path": "mc/histmc.py", "serves_properties": ["C05", "C06", "C14", "C17"],
      "kind_free_text": "explicit-state breadth-first exploration of operation histories on the real library object (state = history, canonical digest de-duplication, reference-model oracle on every transition)"},
 ]
 NOTES = ("All checks explore the real implementation rebuilt from /repo's working tree (mc/build.py); no abstract model is used, "
          "so traces_validated_against_impl equals the number of executed transitions. known_findings.json lists repaired defects (fixed:) and recorded ones.")
 NOT_APPLICABLE = {}
 CHECKS = {
+    "C17": {
+        "engine": "histmc", "category": "model_checking",
+        "technique": "exhaustive enumeration of copy cases (save-point states x copy/pickle), of all interleavings of operations on source and copy up to a depth, and of single-field mutations of every descriptor row, on the real ASan-built library",
+        "text": "Every save-point state (option-lattice representatives x test-particle settings, module variations incl. variational 1st/2nd order, MEGNO, tree, physically colliding spheres under every collision search mode x resolver; histories up to depth 2) is copied with copy() and pickle: "
+                "the copy must compare equal both ways (reb_simulation_diff and ==) and evolve field-for-field identically for 6 steps; every interleaving over {step,edit,synchronize} x {source,copy} of depth 2 (quick) / 3 (thorough) must leave the other object's serialisation untouched, and the copy must run after the source is freed (ASan). "
+                "For every row of the exported descriptor table two single-byte mutations are applied to a copy of each of 9 rich base states: reb_simulation_diff must report a difference iff the harness' own field-wise comparison of the two serialisations (pointers masked, wall-time dropped) finds one.",
+        "note": "Rows never reached by an effective mutation are listed in the evidence (ri_whfast512.pjh needs the AVX512 build). IAS15+tree states are excluded (recorded C05 finding).",
+    },
     "C07": {
         "engine": "crashmc", "category": "fault_enumeration",
         "technique": "exhaustive crash-point enumeration: every byte prefix of the strace-logged write(2) sequence of a 5-snapshot archive history, each image opened, compared and restarted on the real (ASan) library",
